@@ -249,6 +249,34 @@ Theorem C15_share_iff_agree_refuted :
 Proof. exact share_iff_agree_refuted_l. Qed.
 Print Assumptions C15_share_iff_agree_refuted.
 
+(* from items back to features: it_kb is the index of the hash class.  Hash classes are classes of the CANONICAL FORM
+   of the group options (+ frameworks).  Equal options are always in one class ... *)
+Theorem C15_equal_options_same_class : forall a b,
+  wfv (VDict (g_group a)) -> wfv (VDict (g_group b)) -> nofs (VDict (g_group a)) -> nofs (VDict (g_group b)) ->
+  hash_key (VDict (g_group a)) <> None -> hash_key (VDict (g_group b)) <> None ->
+  opts_agree a b = true -> base_eqb a b = true.
+Proof. exact equal_options_same_class_l. Qed.
+Print Assumptions C15_equal_options_same_class.
+
+(* ... and (equality of hash integers being an equivalence) two features have the same it_kb iff they are in one class *)
+Theorem C15_base_class_iff : forall fs a b,
+  (forall x, In x fs -> base_eqb x x = true) ->
+  (forall x y, In x fs -> In y fs -> base_eqb x y = true -> base_eqb y x = true) ->
+  (forall x y z, In x fs -> In y fs -> In z fs -> base_eqb x y = true -> base_eqb y z = true -> base_eqb x z = true) ->
+  In a fs -> In b fs -> (base_class fs a = base_class fs b <-> base_eqb a b = true).
+Proof. exact base_class_iff_l. Qed.
+Print Assumptions C15_base_class_iff.
+
+(* FULL STATEMENT: one class <-> equal options:  forall a b, base_eqb a b = true <-> opts_agree a b = true  (hashable a b).
+   The direction -> is REFUTED on the faithful model (known finding C15-grouping-conflates-list-tuple): group options
+   {"c": [1, 2]} and {"c": (1, 2)} are unequal, have the same canonical form, and the two features are computed in one
+   step.  The direction <- is C15_equal_options_same_class. *)
+Theorem C15_hash_class_refuted :
+  opts_agree hc_a hc_b = false /\ base_eqb hc_a hc_b = true /\ kf_hash_conflation [hc_a; hc_b] = true /\
+  group_features [hc_a; hc_b] = [[0; 1]]%nat.
+Proof. exact hash_conflation_refuted_l. Qed.
+Print Assumptions C15_hash_class_refuted.
+
 (* context options never separate (or join) anything: changing the context of any features leaves the grouping as is *)
 Theorem C15_context_never_splits : forall fs fs', Forall2 same_but_context fs fs' -> group_features fs = group_features fs'.
 Proof. exact context_irrelevant_l. Qed.
